@@ -24,6 +24,7 @@ func Harness_C06_schedules() {
 		vars[v] = true
 	}
 	w := newWorld(zzsym.Param("budget", 1), false)
+	w.gated = true
 	doc := c01Docs[fi]
 	op := doc.Operations[0]
 	got := runOp(w, doc, op, vars)
@@ -41,6 +42,7 @@ var c06MutDoc = `mutation { c { id best { id } boss { id } } a(x: 1) b(x: 2) }`
 func Harness_C06_mutationSerial() {
 	doc := mustLoad(c06MutDoc)
 	w := newWorld(zzsym.Param("budget", 1), false)
+	w.gated = true
 	runOp(w, doc, doc.Operations[0], nil)
 	// positions of the root-field resolver calls in the global call order
 	idx := func(key string) int {
@@ -72,6 +74,7 @@ type fixedWorld struct {
 func Harness_C06_invalids() {
 	doc := mustLoad(`{ me { boss { id } items { title } best { boss { id } } friends { id } } }`)
 	w := newWorld(0, false)
+	w.gated = true
 	w.outs["me/User.boss"] = ref.Out{K: ref.KNull}
 	w.outs["me/User.items"] = ref.Out{K: ref.KError}
 	w.outs["me.best/User.boss"] = ref.Out{K: ref.KError}
